@@ -1,4 +1,5 @@
 import HawkModel.Expr
+import HawkModel.ExprBlock
 import HawkModel.Drv.Util
 /-!
 driver for the expr area (property C08): one test case per line in, one canonical result line out.
@@ -728,7 +729,62 @@ def substLits (isLit : Nat → Bool) (vals : List (Val XF)) : Expr Nat XF → Ex
   | .asg op x y => .asg op x (substLits isLit vals y)
   | e => e
 
+/-- the block-locals placements `blk<d><o|n>-<sib|deep|loop|call>` (vlib/props/c08.py block_function): the operands are
+the locals of a block at depth `d`; the source program is built as an `SStmt`, compiled the way `parse_block` assigns
+frame slots (`compileTop`) and run on the flat frame (`run` = `run_block0`), starting from a frame full of garbage.
+The observed part of the trace is its tail: the value of the expression, the operands, the enclosing blocks' sentinels. -/
+def runBlk (salt : Nat) (variant : String) (p : Parsed) : String :=
+  let X := extFor salt
+  letI : FloatOps XF := xfOps salt
+  let n := p.vals.length
+  let d : Nat := if variant.startsWith "blk1" then 1 else if variant.startsWith "blk2" then 2 else 3
+  let own := (variant.drop 4).startsWith "o"
+  let hist := (variant.splitOn "-").getD 1 ""
+  let ρ : Nat → Ref := fun i => .plain (.arg i)      -- 0 = md, 1 = it (parameters of the function)
+  let sx (e : Expr SRef XF) : SStmt XF := .ex e
+  let seqAll (l : List (SStmt XF)) : SStmt XF := l.foldr .seq .skip
+  let lit0 (v : Val XF) : Expr SRef XF := (litExpr v).map (fun _ => SRef.oth 0)
+  let setLoc (up idx : Nat) (e : Expr SRef XF) : SStmt XF := sx (.asg .none (.loc up idx) e)
+  let junk (k : Nat) : SStmt XF :=
+    seqAll ((List.range k).map fun i => setLoc 0 i (if i % 2 == 0 then .str s!"J{i}" else lit0 (.int 40)))
+  let inits : List (SStmt XF) := (List.range n).filterMap fun i =>
+    match p.vals.getD i .nil with
+    | .nil => none
+    | v => some (setLoc 0 i (lit0 v))
+  let keeps : List (Nat × Nat × String) :=
+    if own then (List.range d).map fun j => (d - j, (if j == 0 then 1 else 0), s!"str [K{j}]") else []
+  let use : SStmt XF := seqAll (inits ++ [sx (p.e.map (fun i => SRef.loc 0 i))] ++
+    (List.range n).map (fun i => sx (.var (.loc 0 i))) ++ keeps.map (fun k => sx (.var (.loc k.1 k.2.1))))
+  let inner : SStmt XF :=
+    if hist == "sib" then .seq (.blk n (junk n)) (.blk n use)
+    else if hist == "deep" then .seq (.blk 1 (.seq (setLoc 0 0 (.str "Y")) (.blk n (junk n)))) (.blk n use)
+    else if hist == "loop" then
+      .seq (sx (.asg .none (.oth 1) (lit0 (.int 0))))
+        (.rep 2 (.blk n (.ite (.bin .eq (.var (.oth 1)) (lit0 (.int 0))) (.seq (junk n) (sx (.incpst .plus (.oth 1)))) use)))
+    else .blk n (.ite (.var (.oth 0)) (junk n) use)
+  let wrap (j : Nat) (body : SStmt XF) : SStmt XF :=
+    if own then .blk 1 (.seq (setLoc 0 0 (.str s!"K{j}")) body) else .blk 0 body
+  let body := (List.range (d - 1)).foldl (fun b jj => wrap (d - 1 - jj) b) inner
+  let k0 : Nat := if own then 2 else 0                -- r, k0
+  let topBody : SStmt XF := if own then .seq (setLoc 0 1 (.str "K0")) body else body
+  let prog : Stmt XF := compileTop ρ k0 topBody
+  let setMd (v : Int) : Stmt XF := .ex (.asg .none (ρ 0) ((litExpr (.int v)).map (fun _ => ρ 0)))
+  let full : Stmt XF := if hist == "call" then .seq (setMd 1) (.seq prog (.seq (setMd 0) prog)) else prog
+  let genv : Env XF :=
+    { named := fun _ => none, gbl := fun _ => .sc .nil, lcl := fun _ => .sc (.str "G"), arg := fun _ => .sc .nil }
+  match run X full (genv, []) with
+  | .error er => errCode er
+  | .ok (_, tr) =>
+    let m := 1 + n + keeps.length
+    let suf := tr.drop (tr.length - m)
+    let res := suf.getD 0 .nil
+    let slots := (suf.drop 1).take n
+    let kv := (suf.drop (1 + n)).map showVal
+    let clob := kv != keeps.map (fun k => k.2.2)
+    (if clob then "CLOBBERED " else "") ++ showVal res ++ "|" ++ joinWith ";" (slots.map showVal)
+
 def runCase (salt : Nat) (variant : String) (p : Parsed) : String :=
+  if variant.startsWith "blk" then runBlk salt variant p else
   let X := extFor salt
   letI : FloatOps XF := xfOps salt
   let n := p.vals.length
